@@ -430,6 +430,23 @@ def inexact(case):
     return False
 
 
+def has_conversion(case):
+    """Any unit conversion at all: the matrix-free path applies it through vector scaling (a
+    division and a multiplication), which is not exact even for the factors 100 and 1000."""
+    for c in case['comps']:
+        for i in c['ins']:
+            sunits = src_info(case, i['src'])[2]
+            if sunits and i['units'] and sunits != i['units']:
+                return True
+    return False
+
+
+def variant_tol(case, variant):
+    if inexact(case) or (variant == 'dict' and has_conversion(case)):
+        return RTOL_UNITS
+    return None
+
+
 # ------------------------------------------------------------------------------------------------
 # exact expectation straight from the property statement (Fractions, complex as pairs)
 
@@ -945,7 +962,7 @@ class C11(Property):
     workers = 1
     tolerance = RTOL_UNITS
     required_theorems = ['C11_csc_map_correct', 'C11_csr_map_correct', 'C11_add_at_seq',
-                         'C11_buffered_seq', 'C11_buffered_add_partial',
+                         'C11_buffered_seq', 'C11_buffered_add_partial', 'C11_buffered_add_iff',
                          'C11_buffered_add_needs_no_duplicates', 'C11_flag_exact',
                          'C11_update_is_add_at', 'C11_accumulate', 'C11_accumulate_order',
                          'C11_all_formats_equal', 'C11_same_dense_same_operator',
@@ -1044,12 +1061,12 @@ class C11(Property):
     def failures(self, case, impl):
         if self.invalid(impl):
             return []
-        tol = RTOL_UNITS if inexact(case) else None
         fails = []
         vs = impl['variants']
         bad_value = {}
         for v in VARIANTS:
             r = vs[v]
+            tol = variant_tol(case, v)
             for ob in r['obs']:
                 exp = expected_obs(case, ob['k'], ob['cs'], ob['tag'])
                 for key in ('J', 'fwd', 'rev_o', 'rev_i'):
@@ -1273,7 +1290,6 @@ class C11(Property):
         by = {m: a for m, a in zip(meta, runs)}
         any_cs = ('do', 'im') in by or ('di', 'im') in by
         self._scipy_contract(by)
-        tol = RTOL_UNITS if inexact(case) else None
         ext = external_inputs(case)
         z = Fraction(0)
 
@@ -1312,6 +1328,7 @@ class C11(Property):
                 if mine != r['keys_do']:
                     raise Infra('dr/do sub-jacobian order: harness %s, OpenMDAO %s' % (mine, r['keys_do']))
             pdo, pdi = paths[v]
+            tol = variant_tol(case, v)
             for li, ob in enumerate(r['obs']):
                 if v != 'dict':
                     Jm = []
